@@ -1394,6 +1394,13 @@ class Emitter:
             return '%s%s' % (op, self.paren(a))
         die('unary operator %s' % op, e)
 
+    def x_UnaryExprOrTypeTraitExpr(self, e):
+        if e.get('name') in ('sizeof', 'alignof') and e.get('argType'):
+            ct = self.T.c(e['argType']['qualType'], e)
+            if ct in ('uint64_t', 'size_t', 'int64_t', 'uint32_t', 'int32_t', 'double', '_Bool') or ct.endswith('*'):
+                return '((size_t)%s(%s))' % ('sizeof' if e['name'] == 'sizeof' else '_Alignof', ct)
+        die('sizeof/alignof of this operand is not modelled (object layouts differ between the C++ and the C text)', e)
+
     def x_ConditionalOperator(self, e):
         c, a, b = e['inner']
         return '(%s ? %s : %s)' % (self.paren(c), self.paren(a), self.paren(b))
@@ -1527,6 +1534,13 @@ class Emitter:
             if a1.get('kind') != 'CXXNullPtrLiteralExpr':
                 die('std::exchange on a shared_ptr with a non-null new value', e)
             return 'shared_ptr_size_exchange_null(%s)' % self.addr(args[0])
+        if rn == 'size' and len(args) == 1:
+            # std::size of a built-in array
+            at = self.unwrap(args[0]).get('type', {}).get('qualType', '')
+            if re.search(r'\[\d+\]$', at):
+                a = self.expr(args[0])
+                return '((size_t)(sizeof(%s) / sizeof((%s)[0])))' % (a, a)
+            die('std::size of %s' % at, e)
         if rn == 'swap' and len(args) == 2:
             # std::swap of two plain pointer / integer objects
             ct = self.ctype_of_expr(args[0])
